@@ -27,12 +27,19 @@ class Harness:
                 fm = mod.FunctorMap(f, scen["nw"])
                 w.constructed = True
                 with fm:
+                    made = {}
+                    if scen.get("calls_first"):
+                        # every call is made before any of the result generators is started ([fm(p) for p in parts]); the calls are
+                        # lazy, so they are still independent of each other when the generators are consumed one after another
+                        for ci, call in enumerate(scen["calls"]):
+                            data = [value(ci + 1, i) for i in range(call["n"])]
+                            made[ci] = fm(iter(data) if call.get("lazy") else data, call["chunk"])
                     for ci, call in enumerate(scen["calls"]):
                         c = ci + 1
                         w.event(op="call_begin", c=c, n=call["n"], chunk=call["chunk"], ord=1)
                         data = [value(c, i) for i in range(call["n"])]
                         it = iter(data) if call.get("lazy") else data
-                        gen_obj = fm(it, call["chunk"])
+                        gen_obj = made[ci] if ci in made else fm(it, call["chunk"])
                         if call.get("zipped"):
                             # the consumer takes exactly as many results as there are elements and never asks for more
                             # (zip(data, fm(data)), islice): every result was consumed, the generator is dropped suspended
@@ -82,6 +89,7 @@ def scenarios(rnd, quick):
         dict(pool="functormap", nw=2, calls=[dict(n=3, chunk=1), dict(n=2, chunk=1)]),   # repeated calls are independent
         dict(pool="functormap", nw=2, calls=[dict(n=2, chunk=1, zipped=True), dict(n=2, chunk=1)]),   # all results taken, no StopIteration
         dict(pool="functormap", nw=1, calls=[dict(n=3, chunk=2, zipped=True), dict(n=1, chunk=1, zipped=True), dict(n=2, chunk=1)]),
+        dict(pool="functormap", nw=2, calls_first=True, calls=[dict(n=3, chunk=2), dict(n=2, chunk=1), dict(n=0, chunk=1), dict(n=1, chunk=1)]),
         dict(pool="mulpmap", nw=1, cpu=1, calls=[dict(n=2)]),
         dict(pool="mulpmap", nw=2, cpu=2, calls=[dict(n=3)]),
         dict(pool="mulpmap", nw=3, cpu=1, calls=[dict(n=2)]),                            # work queue smaller than the workers
@@ -102,7 +110,8 @@ def scenarios(rnd, quick):
     for _ in range(3 if quick else 20):
         kind = rnd.choice(["functormap", "mulpmap"])
         calls = [dict(n=rnd.randint(0, 6), chunk=rnd.randint(1, 3), lazy=rnd.random() < 0.4, zipped=rnd.random() < 0.25) for _ in range(rnd.randint(1, 3))]
-        out.append(dict(pool=kind, nw=rnd.randint(1, 3), cpu=rnd.randint(1, 3), pipe=rnd.choice([0, 0, 1, 2]), calls=calls))
+        out.append(dict(pool=kind, nw=rnd.randint(1, 3), cpu=rnd.randint(1, 3), pipe=rnd.choice([0, 0, 1, 2]), calls=calls,
+                        calls_first=rnd.random() < 0.2))
     for i, s in enumerate(out):
         s["judge"] = JUDGE
         s["name"] = "p%d" % i
